@@ -108,6 +108,26 @@ template <class B> inline bool box_union_is_box(const B& a, const B& b) {
   return !oiv_gap(x[kd], y[kd]) && !oiv_gap(y[kd], x[kd]);
 }
 
+template <class D, bool IS_MAX> inline std::function<std::string()> with_point_call(Env<D>& e, Cur& c) {
+  D* x = e.o[0]; Linear_Expression le = c.expr(x->space_dimension());
+  return [x, le]() { Coefficient n1, d1, n2, d2; bool m1 = false, m2 = false; Generator g = Generator::point();
+    bool b1, b2;
+    { D c1(*x); b1 = IS_MAX ? c1.maximize(le, n1, d1, m1) : c1.minimize(le, n1, d1, m1); }
+    b2 = IS_MAX ? x->maximize(le, n2, d2, m2, g) : x->minimize(le, n2, d2, m2, g);
+    FaultPause fp;
+    const char* nm = IS_MAX ? "maximize" : "minimize";
+    if (b1 != b2 || (b1 && (n1 * d2 != n2 * d1 || m1 != m2))) { if (g_def.ctx) g_def.ctx->violation(g_def.prop.empty() ? "C01" : g_def.prop, "with-point-differs", g_def.dom + "|" + nm + "_with_point|-", std::string(nm) + " with and without the point argument disagree"); return std::string("?"); }
+    if (!b2) return std::string("F");
+    mpq_class q(n2, d2); q.canonicalize();
+    // (products return the optimising point of ONE component, which need not lie in the other: only the value is judged there)
+    if (m2 && g_def.active && Dom<D>::kind != PROD) {
+      if (!g.is_point()) def_violation("with-point-not-a-point", "the returned generator is not a point");
+      else { QPoint p = oracle::vec_of(g, x->space_dimension(), true); D cpy(*x);
+        if (!member_of(cpy, p)) def_violation("with-point-not-member", std::string("the point ") + oracle::show(p) + " returned by " + nm + " is not a member of the set");
+        else { mpq_class ev = eval_le(le, p); if (ev != q) def_violation("with-point-wrong-value", std::string("the expression evaluates to ") + ev.get_str() + " at the returned point, the reported optimum is " + q.get_str()); } } }
+    return "T:" + q.get_str() + ":" + b2s(m2); };
+}
+
 // Independent oracle for the optimisation queries of the closed, constraint-based domains (C polyhedra, BD shapes,
 // octagons, closed boxes): an exact rational simplex (oracle/exact_lp.hh, ~120 lines, self-tested) on the constraints
 // of a private copy.  Returns false when the oracle does not apply (strict inequalities, grids, containers).
@@ -495,6 +515,10 @@ template <class D> void add_common_ops(ObjHarness<D>& H) {
                                if (g_def.active) { Bits px = defbits(*x); auto& v = g_def.probes->of(x->space_dimension());
                                  for (size_t i = 0; i < px.size() && i < v.size(); ++i) if (px[i]) { mpq_class ev = eval_le(le, v[i]); if (ev > q || (ev == q && !mx && K != GRID)) { def_violation("def-maximize", "supremum " + q.get_str() + " but member point " + oracle::show(v[i]) + " evaluates to " + ev.get_str()); break; } } }
                                return "T:" + q.get_str() + ":" + b2s(mx); }; } });
+  // the overloads that also return a point where the optimum is attained: same answer as the plain overload, and the
+  // point is a member of the set at which the expression takes the reported value
+  H.add({ "maximize_with_point", 1, F_OBS | F_ANS | F_FAULT, 3, GENF { gen_expr(r, op, W, false); }, PREPF { return with_point_call<D, true>(e, c); } });
+  H.add({ "minimize_with_point", 1, F_OBS | F_ANS | F_FAULT, 3, GENF { gen_expr(r, op, W, false); }, PREPF { return with_point_call<D, false>(e, c); } });
   H.add({ "minimize", 1, F_OBS | F_ANS | F_FAULT, 4,
     GENF { gen_expr(r, op, W, false); },
     PREPF { D* x = e.o[0]; Linear_Expression le = c.expr(x->space_dimension());
